@@ -693,3 +693,237 @@ def run_C01(ctx):
 
 
 register("C01", ["Guard.Properties.C01"], run_C01)
+
+
+# =============================================================================== C04
+
+def uses_capture(ast):
+    s = json.dumps(ast)
+    import re as _re
+    return bool(_re.search(r'"t": "(filter|allValues|allIndices|keys)", "name": "', s))
+
+
+KC_DOC = {"Resources": {"a": {"Type": "X"}, "b": {"Type": "X"}}}
+
+
+def c04_known_cases():
+    base = {"lets": [], "rules": [{"name": "once", "lets": ["let c = count(%n)"],
+                                   "lines": [["Resources[ n | Type exists ] !empty"], ["%c == 2"]]}]}
+    return [(base, KC_DOC)]
+
+
+def variants(rng, p, limit=10):
+    """(label, program) variants that C04 says must not change any verdict"""
+    import copy
+    out = []
+    rules = p["rules"]
+    # permute lines of one rule
+    cand = [i for i, r in enumerate(rules) if len(r["lines"]) > 1]
+    if cand:
+        i = rng.choice(cand)
+        perms = list(itertools.permutations(range(len(rules[i]["lines"]))))[1:]
+        rng.shuffle(perms)
+        for pm in perms[: (23 if len(perms) <= 23 else 8)][:limit]:
+            q = copy.deepcopy(p)
+            q["rules"][i]["lines"] = [rules[i]["lines"][k] for k in pm]
+            out.append(("permute-lines", q))
+    # permute alternatives of one line
+    cand = [(i, j) for i, r in enumerate(rules) for j, l in enumerate(r["lines"]) if len(l) > 1]
+    if cand:
+        i, j = rng.choice(cand)
+        perms = list(itertools.permutations(range(len(rules[i]["lines"][j]))))[1:]
+        for pm in perms[:5]:
+            q = copy.deepcopy(p)
+            q["rules"][i]["lines"][j] = [rules[i]["lines"][j][k] for k in pm]
+            out.append(("permute-alternatives", q))
+    # repeat a line / an alternative
+    i = rng.randrange(len(rules))
+    j = rng.randrange(len(rules[i]["lines"]))
+    q = copy.deepcopy(p)
+    q["rules"][i]["lines"].insert(rng.randrange(len(rules[i]["lines"]) + 1), list(rules[i]["lines"][j]))
+    out.append(("repeat-line", q))
+    q = copy.deepcopy(p)
+    q["rules"][i]["lines"][j].append(rng.choice(rules[i]["lines"][j]))
+    out.append(("repeat-alternative", q))
+    # permute rules
+    if len(rules) > 1:
+        perms = list(itertools.permutations(range(len(rules))))[1:]
+        rng.shuffle(perms)
+        for pm in perms[:5]:
+            q = copy.deepcopy(p)
+            q["rules"] = [rules[k] for k in pm]
+            out.append(("permute-rules", q))
+    # duplicate a rule under a new name
+    q = copy.deepcopy(p)
+    clone = copy.deepcopy(rules[i])
+    clone["name"] = "clone"
+    q["rules"].insert(rng.randrange(len(rules) + 1), clone)
+    out.append(("duplicate-rule:" + rules[i]["name"], q))
+    return out
+
+
+def run_C04(ctx):
+    res = Result("structured random programs (no key captures; named references only to earlier rules) x documents, each "
+                 "with its variants: all permutations of the lines of a rule (<= 4 lines, sampled beyond), permutations of "
+                 "the alternatives of a line, a repeated line, a repeated alternative, permutations of the rules, a rule "
+                 "duplicated under a new name; verdicts of the implementation are compared across the class (classes in "
+                 "which some ordering raises an error are discarded); non-trivial = class of >= 2 evaluated variants")
+    rng = random.Random(ctx.seed)
+    n = 6000 if ctx.thorough() else 350
+    groups = []   # (base_index, [(label, case_index)])
+    cases = []
+    bases = []
+    for i in range(n):
+        g = gen.SG(ctx.seed * 5000011 + i)
+        d = g.doc()
+        bases.append((g.program(d), d, False))
+    for p, d, known in bases:
+        data = json.dumps(d)
+        bi = len(cases)
+        cases.append({"rules": gen.print_program(p), "data": data})
+        vs = []
+        for label, q in variants(rng, p):
+            vs.append((label, len(cases)))
+            cases.append({"rules": gen.print_program(q), "data": data})
+        groups.append((bi, vs))
+    results = vlib.correspond(cases, ctx.hp, ctx.mp)
+    absorb(res, results, "C04 variants")
+    res.nontrivial = set()
+    # canonical replays of the listed known findings (reported as KNOWN-FINDING while they still fail)
+    kdir = os.path.join(VERIF, "corpus", "known")
+    for f in sorted(os.listdir(kdir)) if os.path.isdir(kdir) else []:
+        k = json.load(open(os.path.join(kdir, f)))
+        if k.get("property") != "C04":
+            continue
+        pair = vlib.correspond([{"rules": k["rules_once"], "data": k["data"]}, {"rules": k["rules_twice"], "data": k["data"]}], ctx.hp, ctx.mp)
+        absorb(res, pair, "C04 known-finding replay")
+        a, b = pair[0]["impl"], pair[1]["impl"]
+        if a.get("kind") == "ok" and b.get("kind") == "ok" and a["rules"] != b["rules"]:
+            res.judge_failures.append({"what": "repeating a capturing clause changes the verdict: %s vs %s" % (a["rules"], b["rules"]),
+                                       "class": "c04-key-capture", "rules": k["rules_twice"], "base_rules": k["rules_once"], "data": k["data"]})
+    for bi, vs in groups:
+        base = results[bi]
+        if base["impl"].get("kind") != "ok":
+            res.stats["c04-class-base-" + base["impl"].get("kind", "?")] += 1
+            continue
+        if any(results[k]["impl"].get("kind") != "ok" for _, k in vs):
+            res.stats["c04-class-discarded-error"] += 1
+            continue
+        bst = dict((n_, s) for n_, s in base["impl"]["rules"])
+        res.nontrivial.add(bi)
+        for label, k in vs:
+            v = results[k]["impl"]
+            vst = dict((n_, s) for n_, s in v["rules"])
+            res.stats["c04-variant:" + label.split(":")[0]] += 1
+            bad = None
+            for name, s in bst.items():
+                if vst.get(name) != s:
+                    bad = "rule %s is %s in the base program and %s after %s" % (name, s, vst.get(name), label)
+            if v["status"] != base["impl"]["status"]:
+                bad = bad or "file status %s became %s after %s" % (base["impl"]["status"], v["status"], label)
+            if label.startswith("duplicate-rule:") and vst.get("clone") != bst.get(label.split(":", 1)[1]):
+                bad = bad or "the duplicated rule has status %s, its original %s" % (vst.get("clone"), bst.get(label.split(":", 1)[1]))
+            if bad:
+                cap = uses_capture(base.get("ast")) if base.get("ast") else False
+                res.judge_failures.append({"what": "order/repetition changes a verdict: " + bad,
+                                           "class": "c04-key-capture" if cap else "c04-order",
+                                           "rules": results[k]["case"]["rules"], "base_rules": base["case"]["rules"],
+                                           "data": base["case"]["data"], "base_verdicts": base["impl"]["rules"],
+                                           "variant_verdicts": v["rules"]})
+        res.add_sample({"rules": base["case"]["rules"][:300], "variants": [l for l, _ in vs], "verdicts": base["impl"]["rules"]})
+    return res
+
+
+register("C04", ["Guard.Properties.C04"], run_C04)
+
+
+# =============================================================================== C15
+
+def run_C15(ctx):
+    res = Result("for random (document, query, operator, right-hand side): the clause written in place vs the same clause "
+                 "with the query (whole, or a prefix of it) or the literal bound to a `let` at file, rule and block scope, "
+                 "with an unused (even erroring) variable added, referenced twice, shadowed, and through a parameterised "
+                 "rule; implementation verdicts must coincide; non-trivial = the in-place program evaluated without error")
+    n = 4000 if ctx.thorough() else 400
+    cases, groups = [], []
+    for i in range(n):
+        g = gen.G(ctx.seed * 3000017 + i, core=True)
+        d = g.doc()
+        # a query with at least two parts so that a prefix can be abstracted
+        q, sample = g.walk(d, [], 1)
+        if q.startswith("this") or "%" in q:
+            continue
+        op = g.ch(["==", "!=", ">", "<=", "in", "not in", "exists", "!exists", "is_string", "is_list", "empty", "!empty"])
+        unary = op[0].isalpha() and op not in ("in", "not in") or op.startswith("!")
+        rhs = "" if unary else g.literal(sample)
+        some = "some " if g.p(0.15) else ""
+        neg = "not " if g.p(0.15) else ""
+        def clause(lhs):
+            return ("%s%s%s %s %s" % (neg, some, lhs, op, rhs)).strip()
+        progs = {"inline": "rule r {\n%s\n}\n" % clause(q)}
+        skip_empty_exception = op in ("empty", "!empty")     # the documented exception: `%v empty` tests the result set
+        if not skip_empty_exception:
+            progs["file-let"] = "let v = %s\nrule r {\n%s\n}\n" % (q, clause("%v"))
+            progs["rule-let"] = "rule r {\nlet v = %s\n%s\n}\n" % (q, clause("%v"))
+            progs["twice"] = "let v = %s\nrule r {\n%s\n%s\n}\n" % (q, clause("%v"), clause("%v"))
+            progs["shadow"] = "let v = zz.zz\nrule r {\nlet v = %s\n%s\n}\n" % (q, clause("%v"))
+            progs["when-let"] = "rule r {\nwhen this exists {\nlet v = %s\n%s\n}\n}\n" % (q, clause("%v"))
+            progs["param"] = "rule f(p) {\n%s\n}\nrule r {\nf(%s)\n}\n" % (clause("%p"), q)
+        progs["unused"] = "let u = zz[ q == 1 ].w\nlet u2 = parse_int(\"x\")\nrule r {\nlet u3 = join(zz, \",\")\n%s\n}\n" % clause(q)
+        # prefix abstraction: split the query at a '.' boundary outside brackets
+        depth, cut = 0, None
+        for k, ch_ in enumerate(q):
+            if ch_ == "[":
+                depth += 1
+            elif ch_ == "]":
+                depth -= 1
+            elif ch_ == "." and depth == 0 and k > 0 and q[k - 1] not in "\"'" and cut is None and g.p(0.6):
+                cut = k
+        if cut and not skip_empty_exception:
+            head, tail = q[:cut], q[cut:]
+            if not any(c in head for c in "\"'"):
+                progs["prefix-let"] = "let v = %s\nrule r {\n%s\n}\n" % (head, clause("%v" + tail))
+        if rhs and not rhs.startswith("r[") and not rhs.startswith("r("):
+            progs["literal-let"] = "let lit = %s\nrule r {\n%s%s%s %s %%lit\n}\n" % (rhs, neg, some, q, op)
+            progs["literal-rule-let"] = "rule r {\nlet lit = %s\n%s%s%s %s %%lit\n}\n" % (rhs, neg, some, q, op)
+        # block scope: evaluate inside a block over a wrapper value
+        data = json.dumps({"ctx": d, **d})
+        if not skip_empty_exception:
+            progs["block-inline"] = "rule r {\nctx {\n%s\n}\n}\n" % clause(q)
+            progs["block-let"] = "rule r {\nctx {\nlet v = %s\n%s\n}\n}\n" % (q, clause("%v"))
+        idx = {}
+        for k, t in progs.items():
+            idx[k] = len(cases)
+            cases.append({"rules": t, "data": data})
+        groups.append((idx, q, op, rhs))
+    results = vlib.correspond(cases, ctx.hp, ctx.mp)
+    absorb(res, results, "C15 abstraction sites")
+    res.nontrivial = set()
+    for idx, q, op, rhs in groups:
+        def st(k):
+            r = results[idx[k]]["impl"]
+            if r.get("kind") == "ok":
+                return dict((a, b) for a, b in r["rules"]).get("r")
+            return "ERR:" + str(r.get("err", r.get("kind")))
+        base = st("inline")
+        if base is None or str(base).startswith("ERR"):
+            res.stats["c15-base-error"] += 1
+            continue
+        res.nontrivial.add((q, op, rhs))
+        for k in idx:
+            if k in ("inline", "block-inline", "block-let"):
+                continue
+            res.stats["c15-site:" + k] += 1
+            if st(k) != base:
+                res.judge_failures.append({"what": "abstraction `%s` changes the verdict of `%s %s %s`: in place %s, abstracted %s" % (k, q, op, rhs, base, st(k)),
+                                           "class": "c15-" + k, "rules": results[idx[k]]["case"]["rules"],
+                                           "base_rules": results[idx["inline"]]["case"]["rules"], "data": results[idx[k]]["case"]["data"]})
+        if "block-let" in idx and st("block-inline") != st("block-let") and not str(st("block-inline")).startswith("ERR"):
+            res.judge_failures.append({"what": "block-level abstraction changes the verdict: %s vs %s" % (st("block-inline"), st("block-let")),
+                                       "class": "c15-block-let", "rules": results[idx["block-let"]]["case"]["rules"],
+                                       "base_rules": results[idx["block-inline"]]["case"]["rules"], "data": results[idx["block-let"]]["case"]["data"]})
+        res.add_sample({"query": q, "op": op, "rhs": rhs, "in_place": base, "sites": sorted(idx)})
+    return res
+
+
+register("C15", ["Guard.Properties.C15"], run_C15)
